@@ -51,12 +51,13 @@ CHECKS = {
         note=LEVEL_NOTE_COMMON + " Not proved as a theorem: that update() re-inserts the old rows unchanged before new candidates (exact correspondence of init_from_neighbor_graph + history oracle).",
     ),
     "C15": dict(
-        technique="Coq proof (models of the four diversification kernels computed equal to a greedy specification, for every storage and tie order) + bit-exact differential execution incl. generator state + specification oracle on kernel outputs",
+        technique="Coq proof (models of the four diversification kernels computed equal to a greedy specification, for every storage and tie order) + bit-exact differential execution incl. generator state + specification oracle on kernel outputs and on NNDescent._search_graph (index-level wiring stream)",
         text=("Theorems in coq/props/C15.v: the greedy flags satisfy the property's iff (dropped iff an earlier kept neighbour at non-zero "
               "distance is nearer to it than the point is; nearest always kept); forward rows (dense+sparse) are rewritten to exactly the kept "
               "candidates plus padding; reverse CSR rows are zeroed at exactly the dropped positions for ANY sorting permutation and storage "
               "order; probability 0 removes nothing; the pinned dense CSR variant is refuted by a computed witness. All four compiled kernels "
-              "are compared with the extracted model on one thread, generator state included, and the specification is re-evaluated on their outputs."),
+              "are compared with the extracted model on one thread, generator state included, and the specification is re-evaluated on their outputs; the search graph of dense and sparse indexes rebuilt over one exact neighbour graph is compared with the "
+              "specification for diversify_prob 0 and 1 (one known finding: the reverse pass of _init_search_graph is applied to a transposed view, KNOWN_FINDINGS.jsonl)."),
         design_ref="6.15",
         note=LEVEL_NOTE_COMMON + " Probability-1 theorems assume the generator never returns 1.0f (C15_tau_rand_can_return_one shows a state where it does).",
     ),
@@ -107,19 +108,20 @@ CHECKS = {
         note=LEVEL_NOTE_COMMON + " The translator's call classification (every call may raise; attribute reads do not) is hand-written and validated by a self-test corpus and the probes.",
     ),
     "C08": dict(
-        technique="Coq proof (double structural induction on the two-pointer merges: densify(sum/diff/mul) = pointwise op, dot = sum of the product, cursor/limit loop = support intersection) + exact correspondence of the compiled primitives + the property itself over all 4096 support pairs x value pools x every metric in both tables",
+        technique="Coq proof (the property itself for squared_euclidean/manhattan/chebyshev/hamming: sparse kernel on the CSR encodings = dense kernel, for all integer vectors, via canonicity of sorted zero-free sparse vectors; sparse kernels regenerated from the source and proved equal to the model on every run; double structural induction on the two-pointer merges: densify(sum/diff/mul) = pointwise op, dot = sum of the product, cursor/limit loop = support intersection) + exact correspondence of the compiled primitives + the property itself over all 4096 support pairs x value pools x every metric in both tables",
         text=("Theorems in coq/props/C08.v, for all sorted sparse vectors (every support pattern): sparse_sum / sparse_diff / sparse_mul keep the "
               "indices sorted and densify to the pointwise sum / difference / product; sparse_dot_product equals the sum of the product's "
               "entries; fast_intersection_size (its cursor-and-limit loop shown equal to the plain merge count) equals the size of the "
               "intersection of the supports, the quantity every sparse binary metric is a formula of. The compiled primitives reproduce the "
               "extracted model exactly on integer values; every metric offered for both dense and CSR data is evaluated on all pairs of "
               "supports over a 6-index universe with signed, all-ones and cancellation-prone value pools, sparse vs dense (JS / symmetric KL vs "
-              "dense on the union of supports)."),
+              "dense on the union of supports). C08_sparse_eq_dense / C08_canonical / C08_sparse_diff_of_encodings: sparse = dense for the polynomial family, all integer vectors; "
+              "exact streams of the sparse polynomial and angular kernels against the model and the dense kernels."),
         design_ref="6.8",
         note=LEVEL_NOTE_COMMON + " The per-metric formulas on top of the merges (and their float rounding) are compared, not proved; the merge theorems are over exact integers.",
     ),
     "C09": dict(
-        technique="Coq proof over the reals (Rpower/ln/sqrt/acos monotonicity and inverse laws) of the surrogate/correction pairs + evaluation of the compiled surrogate kernels and correction ufuncs against float64 references, incl. a sweep of float32 bit patterns (all 2^31 non-negative patterns in the thorough tier)",
+        technique="Coq proof over the reals (Rpower/ln/sqrt/acos monotonicity and inverse laws) of the surrogate/correction pairs + Coq proof over Z that alternative_cosine / alternative_dot use the documented metric's exact core (result, norm_x*norm_y) with 0 < result, result^2 <= norm_x*norm_y (Cauchy-Schwarz) and give the sentinel only where the documented distance is >= 1, tied by exact branch correspondence + evaluation of the compiled surrogate kernels and correction ufuncs against float64 references, incl. a sweep of float32 bit patterns (all 2^31 non-negative patterns in the thorough tier)",
         text=("Theorems in coq/props/C09.v: for similarity core s > 0, 1 - 2^-(-log2 s) = 1 - s (cosine, dot, jaccard), sqrt(1 - 2^-(-log2 s)) = "
               "sqrt(1 - s) (hellinger), 1 - acos(2^-(-log2 s))/pi = 1 - acos(s)/pi (true_angular), sqrt(d*d) = d; the surrogate orders any two "
               "candidates exactly as the documented metric does (strictly, both directions) for each of these, and squared distances order as "
@@ -130,15 +132,18 @@ CHECKS = {
         note=LEVEL_NOTE_COMMON + " Axioms: Coq.Reals (ClassicalDedekindReals.sig_forall_dec, sig_not_dec, FunctionalExtensionality.functional_extensionality_dep, Classical_Prop.classic). Float32 rounding is measured, not proved; strict order is claimed only on the non-saturated domain.",
     ),
     "C07": dict(
-        technique="Coq proof (count-based metric family: symmetry, identity, division safety, ranges for all count vectors; counting loop laws) + exhaustive comparison of the compiled binary metrics with the extracted exact fractions on all 0/1 vector pairs of small dimension + float64 reference comparison, symmetry, NaN and identity checks of every named dense metric on structured float32 vectors",
+        technique="Coq proof (count-based metric family: symmetry, identity, division safety, ranges for all count vectors; polynomial family squared_euclidean/manhattan/chebyshev/hamming/bray_curtis: metric laws incl. triangle inequality for all integer vectors; angular family: Cauchy-Schwarz => ratio in [-1,1], identity, symmetry) with the polynomial kernels REGENERATED from the source by a fail-closed Python-ast translator and proved equal to the model on every run + exhaustive comparison of the compiled binary metrics with the extracted exact fractions on all 0/1 vector pairs of small dimension + float64 reference comparison, symmetry, NaN and identity checks of every named dense metric on structured float32 vectors",
         text=("Theorems in coq/props/C07.v, for all admissible counts: every count-based metric (hamming, matching, jaccard, dice, kulsinski, "
               "rogerstanimoto, sokalmichener, russellrao, sokalsneath, yule) is symmetric, assigns identical inputs exactly 0, never divides by "
               "zero on the branch that divides, and stays in its documented range; the counting loop swaps tf/ft under argument swap. The "
               "compiled kernels equal the extracted model's exact fractions on ALL pairs of 0/1 vectors up to dimension 5 (6 in thorough). "
               "All other named dense metrics are compared with independent float64 definitions on structured vectors (zero, identical, "
-              "multiples, extreme magnitudes, near-identical, ~1e5 values) with all metric arguments, and checked for symmetry, NaN and d(x,x)=0."),
+              "multiples, extreme magnitudes, near-identical, ~1e5 values) with all metric arguments, and checked for symmetry, NaN and d(x,x)=0. "
+              "Polynomial and angular kernels: theorems for all integer vectors (C07_lattice_*, C07_cauchy_schwarz, C07_cosine_*); harness/latticegen.py regenerates the "
+              "accumulator loops from distances.py / sparse.py on every run and coqc checks tie_* (regenerated = model/Lattice.v on all inputs); exact correspondence on "
+              "integer-valued float32 vectors (values bit for bit; the branch taken by cosine / true_angular / dot exactly)."),
         design_ref="6.7",
-        note=LEVEL_NOTE_COMMON + " Float32 rounding of geometric/distribution kernels is not proved (tolerance comparison); spearmanr, circular_kantorovich, tsss, true_angular are checked for laws only; transport metrics are C10.",
+        note=LEVEL_NOTE_COMMON + " Float32 rounding of geometric/distribution kernels is not proved (tolerance comparison); circular_kantorovich and tsss are checked for laws only (spearmanr and true_angular have references); transport metrics are C10.",
     ),
     "C10": dict(
         technique="Coq proof of an LP-duality optimality certificate (weak duality with slack, all sizes) evaluated, extracted and in exact integer arithmetic, on the plan and potentials produced by the real network simplex for every instance; consequences of the property checked on the public entry points",
